@@ -2,6 +2,7 @@
 import random, os, json, multiprocessing as mp
 from fractions import Fraction as F
 from ..common import Result, OUT, scratch, run_tlc, Machinery, tlc_error_excerpt, rat, quiet
+from ..common import fork_pool
 from .. import domains as D
 from . import elect as EL
 from ..calltrace import judge_calls
@@ -307,10 +308,10 @@ def run(tier, seed, replay=None):
                            name="mc%d" % i)
         calls, elects = call_corpus(tier, seed), election_corpus(tier, seed)
     res.evaluations = len(calls) + len(elects)
-    with mp.get_context("fork").Pool(16) as pool:
+    with fork_pool(16) as pool:
         traces = [t for ts in pool.imap_unordered(call_work, calls, chunksize=16) for t in ts]
     if not replay or "ranking" in rp:
-        with mp.get_context("fork").Pool(16) as pool:
+        with fork_pool(16) as pool:
             traces += [t for ts in pool.imap_unordered(helper_work, helper_corpus(tier, seed) if not replay else [rp], chunksize=16) for t in ts]
     traces.sort(key=lambda t: json.dumps({k: v for k, v in t.items() if not k.startswith("_")}, sort_keys=True))
     for t in traces:
@@ -332,12 +333,12 @@ def run(tier, seed, replay=None):
     rngw = random.Random(4040 + seed)
     wide_inputs = [{"cands": i["cands"], "ballots": i["ballots"], "vectors": rngw.sample(WIDE_VECTORS, 3)}
                    for i in rngw.sample([c for c in calls if "names" not in c], min(len(calls), 200 if tier == "quick" else 3000))] if not replay else []
-    with mp.get_context("fork").Pool(16) as pool:
+    with fork_pool(16) as pool:
         for vs in pool.imap_unordered(wide_work, wide_inputs, chunksize=8):
             for sig, what, inp in vs:
                 res.violation(sig, what, {"input": inp})
     ww = wide_weight_inputs(rngw, 150 if tier == "quick" else 3000) if not replay else []
-    with mp.get_context("fork").Pool(16) as pool:
+    with fork_pool(16) as pool:
         for vs in pool.imap_unordered(wide_weight_work, ww, chunksize=8):
             for sig, what, inp in vs:
                 res.violation(sig, what, {"input": inp})
